@@ -31,7 +31,7 @@ pub struct ConcCase {
 }
 
 pub fn algos() -> Vec<String> {
-    let mut v: Vec<String> = hashes::c08_hashes().iter().map(|h| h.name.clone()).collect();
+    let mut v: Vec<String> = hashes::c18_hashes().iter().map(|h| h.name.clone()).collect();
     for i in 0..7 {
         v.push(format!("cipher:{}", i));
     }
@@ -95,7 +95,7 @@ pub fn compute_job(j: &JobSpec) -> Vec<u8> {
         }
         return out;
     }
-    let specs = hashes::c08_hashes();
+    let specs = hashes::c18_hashes();
     let spec = specs.iter().find(|s| s.name == j.algo).expect("HARNESS: algo");
     let mut h = (spec.make)();
     // fed in two pieces so that buffering is exercised
@@ -124,7 +124,7 @@ pub fn reference_job(j: &JobSpec) -> Option<Vec<u8>> {
     if j.algo.starts_with("threefish:") || j.algo == "guts" {
         return None; // covered by C09 / C14; here the sequential result is the oracle
     }
-    let specs = hashes::c08_hashes();
+    let specs = hashes::c18_hashes();
     let spec = specs.iter().find(|s| s.name == j.algo)?;
     Some(hashes::ref_digest(spec, &data))
 }
@@ -164,17 +164,60 @@ fn job_strategy(algos: Vec<String>, max_len: usize) -> BoxedStrategy<JobSpec> {
     (0..n, any::<u64>(), 0..=max_len).prop_map(move |(a, seed, len)| JobSpec { algo: algos[a].clone(), seed, len }).boxed()
 }
 
-/// cold-start cases: many threads, short jobs, several threads share the first-call target
+/// Algorithms that plausibly share process-wide state: same family (Skein: same state size).
+fn group(a: &str) -> String {
+    if a.starts_with("Skein") { a.split('<').next().unwrap().to_string() }
+    else if a.starts_with("Groestl") { "Groestl".into() } else if a.starts_with("Blake") { "Blake".into() } else if a.starts_with("Jh") { "Jh".into() }
+    else { a.split(':').next().unwrap().to_string() }
+}
+
+fn siblings(al: &[String], a: &str) -> Vec<String> {
+    let g = group(a);
+    al.iter().filter(|x| group(x) == g).cloned().collect()
+}
+
+/// cold-start cases: many threads, short jobs, several threads share the first-call target - the same algorithm or
+/// (half of the sharing threads) a sibling of it: another variant of the same family / another output size of the
+/// same Skein state size, which is what state keyed too coarsely (per family, per state size) needs
 pub fn cold_strategy() -> BoxedStrategy<ConcCase> {
     let al = algos();
     let n = al.len();
-    (2usize..=48, 0..n, prop::collection::vec((0u32..3000, 0..n, any::<u64>(), 0usize..700, prop::collection::vec(job_strategy(al.clone(), 700), 0..3), prop::bool::weighted(0.7)), 48))
-        .prop_map(move |(nthreads, shared, specs)| {
-            let threads = specs.into_iter().take(nthreads).map(|(spin, own, seed, len, more, use_shared)| {
-                let first = JobSpec { algo: al[if use_shared { shared } else { own }].clone(), seed, len };
+    (2usize..=48, 0..n, prop::collection::vec((0u32..3000, 0..n, any::<u64>(), 0usize..700, prop::collection::vec(job_strategy(al.clone(), 700), 0..3), prop::bool::weighted(0.7),
+        prop_oneof![1 => Just(0u16), 1 => 1u16..=u16::MAX]), 48), prop::bool::weighted(0.5))
+        .prop_map(move |(nthreads, shared, specs, with_siblings)| {
+            let sibs = siblings(&al, &al[shared]);
+            let threads = specs.into_iter().take(nthreads).map(|(spin, own, seed, len, more, use_shared, sib)| {
+                let algo = if !use_shared { al[own].clone() } else if with_siblings && sib != 0 { sibs[gen::idx(sib, sibs.len())].clone() } else { al[shared].clone() };
+                let first = JobSpec { algo, seed, len };
                 let mut jobs = vec![first];
                 jobs.extend(more);
                 ThreadSpec { spin, jobs }
+            }).collect();
+            ConcCase { threads }
+        })
+        .boxed()
+}
+
+/// churn cases: 4..16 threads, each running a few hundred tiny jobs that alternate between 2..3 sibling algorithms
+/// (construction, a short input, finalisation): sustained contention on whatever the constructors share
+pub fn churn_strategy() -> BoxedStrategy<ConcCase> {
+    let al = algos();
+    let n = al.len();
+    (4usize..=16, 0..n, prop::collection::vec(any::<u16>(), 2..=3), 50usize..=400, any::<u64>(), 0usize..=64)
+        .prop_map(move |(nthreads, a, picks, iters, seed, len)| {
+            let sibs = siblings(&al, &al[a]);
+            // at most six distinct jobs per case (the parent computes each expected value once)
+            let mut pool: Vec<JobSpec> = Vec::new();
+            for (k, p) in picks.iter().enumerate() {
+                let algo = if k == 0 { al[a].clone() } else { sibs[gen::idx(*p, sibs.len())].clone() };
+                for v in 0..2u64 {
+                    pool.push(JobSpec { algo: algo.clone(), seed: seed ^ (v * 0x9e37 + k as u64), len: if v == 0 { len } else { len / 3 } });
+                }
+            }
+            let threads = (0..nthreads).map(|t| {
+                let mut x = seed ^ (t as u64).wrapping_mul(0x9e3779b97f4a7c15);
+                let jobs = (0..iters).map(|_| pool[(splitmix(&mut x) % pool.len() as u64) as usize].clone()).collect();
+                ThreadSpec { spin: 0, jobs }
             }).collect();
             ConcCase { threads }
         })
@@ -231,6 +274,20 @@ pub fn conc_check(c: &ConcCase, repeats: u32, info: &mut CaseInfo) -> Result<(),
     info.nontrivial = shared >= 2;
     info.label_if(shared >= 2, ">=2 threads share a first-call target");
     info.label_if(shared >= 8, ">=8 threads share a first-call target");
+    // threads whose first calls go to different members of one group (family / Skein state size)
+    let mut groups: std::collections::HashMap<String, std::collections::HashSet<&str>> = std::collections::HashMap::new();
+    for t in &c.threads {
+        if let Some(j) = t.jobs.first() {
+            groups.entry(group(&j.algo)).or_default().insert(j.algo.as_str());
+        }
+    }
+    info.label_if(groups.values().any(|g| g.len() >= 2), "first calls into different siblings of one family");
+    info.label_if(groups.iter().any(|(k, g)| k.starts_with("Skein") && g.len() >= 2), "first calls into different output sizes of one Skein state size");
+    let jobs_max = c.threads.iter().map(|t| t.jobs.len()).max().unwrap_or(0);
+    info.label_if(jobs_max >= 50, "churn (>= 50 short jobs per thread)");
+    if jobs_max >= 50 {
+        info.nontrivial = true;
+    }
     info.label(format!("threads {}", match c.threads.len() { 0..=3 => "2-3", 4..=15 => "4-15", 16..=31 => "16-31", _ => "32+" }));
     let total: usize = c.threads.iter().flat_map(|t| t.jobs.iter()).map(|j| j.len).sum();
     info.label_if(total > (4 << 20), "sustained (> 4 MiB in flight)");
@@ -307,23 +364,29 @@ pub struct InterCase {
     /// things - a cache, a memo table - only shows when independent instances share their inputs)
     #[serde(default)]
     pub same_key: bool,
+    /// 0 = keys as `same_key` says; 1..=4 = all instances share key and nonce bytes except for nonce bytes 0..8 (1),
+    /// 8..16 (2), 16..24 (3) or one byte anywhere in key/nonce (4), which differ per instance: state keyed by PART of
+    /// the inputs (a memo of the XChaCha subkey derivation keyed without the nonce head, say) needs partly equal inputs
+    #[serde(default)]
+    pub relation: u8,
 }
 
 pub fn inter_strategy() -> BoxedStrategy<InterCase> {
-    let mut al: Vec<String> = hashes::c08_hashes().iter().map(|h| h.name.clone()).collect();
+    let mut al: Vec<String> = hashes::c18_hashes().iter().map(|h| h.name.clone()).collect();
     for i in 0..7 {
         al.push(format!("cipher:{}", i));
     }
     let n = al.len();
     let ciphers: Vec<String> = (0..7).map(|i| format!("cipher:{}", i)).collect();
-    (prop::collection::vec(0..n, 2..=6), any::<u64>(), prop::collection::vec((any::<u16>(), hashes::piece()), 1..40), prop_oneof![3 => Just(1u8), 1 => 2u8..=4], 0u8..10, prop::bool::weighted(0.4))
-        .prop_map(move |(ix, seed, ops, owners, sel, same_key)| {
+    (prop::collection::vec(0..n, 2..=6), any::<u64>(), prop::collection::vec((any::<u16>(), hashes::piece()), 1..40), prop_oneof![3 => Just(1u8), 1 => 2u8..=4], 0u8..10, prop::bool::weighted(0.4),
+        prop_oneof![6 => Just(0u8), 1 => Just(1u8), 1 => Just(2u8), 1 => Just(3u8), 1 => Just(4u8)])
+        .prop_map(move |(ix, seed, ops, owners, sel, same_key, relation)| {
             // 40 %: all instances of the same type (state shared between equal types would show);
             // 20 %: ciphers only (with `same_key`: several cipher types on one key and nonce)
             let instances = ix.iter().map(|i| {
                 if sel < 4 { al[ix[0]].clone() } else if sel < 6 { ciphers[*i % 7].clone() } else { al[*i].clone() }
             }).collect();
-            InterCase { instances, seed, ops, owners, same_key }
+            InterCase { instances, seed, ops, owners, same_key, relation }
         })
         .boxed()
 }
@@ -350,7 +413,7 @@ fn make_send_cipher(v: usize, key: &[u8], nonce: &[u8]) -> Box<dyn chacha_stream
 }
 
 pub fn inter_check(c: &InterCase, info: &mut CaseInfo) -> Result<(), Fail> {
-    let specs = hashes::c08_hashes();
+    let specs = hashes::c18_hashes();
     let n = c.instances.len();
     // per instance: the pieces it receives, in order (a pure function of the case)
     let mut fills = vec![0usize; n];
@@ -367,7 +430,24 @@ pub fn inter_check(c: &InterCase, info: &mut CaseInfo) -> Result<(), Fail> {
     }
     // expected per instance: one-at-a-time result over the concatenation (hash: one-shot digest +
     // reference for short inputs; cipher: reference keystream)
-    let keys: Vec<Vec<u8>> = (0..n).map(|i| gen::expand(c.seed ^ (if c.same_key { 1 } else { i as u64 + 1 }), 64, 0)).collect();
+    let keys: Vec<Vec<u8>> = (0..n).map(|i| {
+        let own = gen::expand(c.seed ^ (i as u64 + 1), 64, 0);
+        if c.relation == 0 {
+            return if c.same_key { gen::expand(c.seed ^ 1, 64, 0) } else { own };
+        }
+        // bytes 0..32 key, 32.. nonce (8, 12 or 24 bytes used)
+        let mut k = gen::expand(c.seed ^ 1, 64, 0);
+        match c.relation {
+            1 => k[32..40].copy_from_slice(&own[..8]),
+            2 => k[40..48].copy_from_slice(&own[..8]),
+            3 => k[48..56].copy_from_slice(&own[..8]),
+            _ => {
+                let at = ((c.seed >> 8) as usize + 7 * i) % 56;
+                k[at] ^= (i as u8).wrapping_add(1);
+            }
+        }
+        k
+    }).collect();
     let mut model: Vec<Vec<u8>> = vec![Vec::new(); n];
     for (k, d) in &sched {
         model[*k].extend_from_slice(d);
@@ -447,7 +527,8 @@ pub fn inter_check(c: &InterCase, info: &mut CaseInfo) -> Result<(), Fail> {
     info.label_if(kinds.len() == 1, "all instances of the same type");
     info.label_if(kinds.len() > 1, "instances of different types");
     info.label_if(owners > 1, "instances distributed over owner threads");
-    info.label_if(c.same_key && c.instances.iter().filter(|a| a.starts_with("cipher:")).count() >= 2, "several cipher instances share key and nonce bytes");
+    info.label_if(c.relation != 0 && c.instances.iter().filter(|a| a.starts_with("cipher:")).count() >= 2, "cipher instances with partly equal key/nonce bytes");
+    info.label_if(c.relation == 0 && c.same_key && c.instances.iter().filter(|a| a.starts_with("cipher:")).count() >= 2, "several cipher instances share key and nonce bytes");
     let touched = model.iter().filter(|m| !m.is_empty()).count();
     info.nontrivial = touched >= 2;
     info.label_if(touched >= 2, ">=2 instances interleaved");
@@ -474,12 +555,16 @@ pub fn run_c18(ctx: &mut Ctx) {
     ctx.run("concurrent-cold-start", n, cold_strategy(), move |c, i| conc_check(c, reps, i));
     let n = ctx.count(48, 800);
     ctx.run("concurrent-sustained", n, sustained_strategy(), move |c, i| conc_check(c, reps, i));
+    let n = ctx.count(250, 4_000);
+    ctx.run("concurrent-sustained-churn", n, churn_strategy(), move |c, i| conc_check(c, reps, i));
     ctx.max_shrink = 20_000;
     let n = ctx.count(20_000, 600_000);
     ctx.run("interleaved-instances", n, inter_strategy(), inter_check);
     for c in [">=2 threads share a first-call target", ">=8 threads share a first-call target", "sustained (> 4 MiB in flight)",
         "shared first call: Groestl", "shared first call: Blake", "shared first call: Jh", "shared first call: cipher",
-        "all instances of the same type", "instances distributed over owner threads"] {
+        "all instances of the same type", "instances distributed over owner threads", "first calls into different siblings of one family",
+        "first calls into different output sizes of one Skein state size", "churn (>= 50 short jobs per thread)",
+        "cipher instances with partly equal key/nonce bytes"] {
         ctx.required_classes.push(c.into());
     }
 }
